@@ -1,3 +1,30 @@
-(* C10 — server handler lifecycle (theorems follow). *)
-From Model Require Import Base Conn Server.
+(* C10 — server handler lifecycle.  Theorems only.
+   Model: Model/Server.v (UdpServerThread.run + the ServerContext helpers) on top of Model/Conn.v.
+   `srv_life h e g bl ins` = handler.starting() followed by the loop iterations `ins`, for ANY
+   handler oracle h (what every handler call does and whether it raises), ANY environment e (MTU
+   constants), settings g, blocklist bl, and ANY list of iterations: each with arbitrary clock
+   readings, an arbitrary batch of datagrams from arbitrary addresses (bytes + symbolic body +
+   handshake oracle answers), an arbitrary urandom stream, and the stop flag (shutdown at any tick).
+   A client is a ServerClientConnection OBJECT (cid), not an address: reconnecting from the same
+   address creates a new one. *)
+From Model Require Import Base SeqNum Wire Conn Server.
+From Proofs Require Import ServerP C10P.
 Open Scope Z_scope.
+
+(* 1. per client object the handler sees a prefix of  connect . message* . disconnect :
+      connect at most once and first, messages only between connect and disconnect, disconnect at
+      most once and last; in particular never a message or disconnect without a prior connect *)
+Theorem C10_lifecycle : forall h e g bl ins cid,
+  lifecycle_shape cid (proj cid (hlog (snd (srv_life h e g bl ins)))).
+Proof. exact C10_lifecycle_proof. Qed.
+Print Assumptions C10_lifecycle.
+
+(* 2. shutdown: once the loop has exited normally, every client that connected has had exactly
+      one disconnect *)
+Theorem C10_shutdown_complete : forall h e g bl ins cid,
+  let r := srv_life h e g bl ins in
+  s_active (fst r) = false -> s_dead (fst r) = false ->
+  proj cid (hlog (snd r)) = [] \/
+  exists a t msgs, proj cid (hlog (snd r)) = HConnect cid a t :: msgs ++ [HDisconnect cid] /\ Forall is_message msgs.
+Proof. exact C10_shutdown_complete_proof. Qed.
+Print Assumptions C10_shutdown_complete.
